@@ -128,6 +128,10 @@ pub fn deviations() -> Vec<(String, Vec<Value>)> {
         json!("(a{1000}){1000}"),
         json!("(?P<m>[a-z]+)"),
         json!("(?P<n>[a-z]+)"),
+        // named / unnamed groups of the expression's own (names that are no declared marker), accepting the baseline values
+        json!("(?P<inner>[0-9a-zé]+)"),
+        json!("(?P<year>[0-9a-zé]+?)(?P<rest>[0-9a-zé]*)"),
+        json!("([0-9a-zé])([0-9a-zé]*)"),
         json!("\\p{Greek}+|[a-zé]+"),
         json!(".+?"),
         json!("[a-z]+)"),
